@@ -266,6 +266,11 @@ def seq_at(seq, i):
 
 def seq_len(seq):
     return len(seq)
+
+
+def pair_snd_at(seq, i):
+    """second component of pair i of a sequence of pairs (Call.kwargs), None outside the range"""
+    return seq[i][1] if 0 <= i < len(seq) else None
 # ---------------------------------------------------------------------------
 # numeral spellings (C06).  Native meaning: a hand-written character scanner and
 # the positional-value sum; written from the grammar
